@@ -143,6 +143,33 @@ def run_property(pid, tier="quick", replay=None, repo_root=None, write_evidence=
         return 2, out, []
     verdicts = [r for r in results if not r.note]
     notes = [r for r in results if r.note]
+    # a value-returning `return` that the confirmed version of an analysed function does not have is a path the rule tables were never
+    # confirmed on (typically an added fast path): if everything else holds, say so instead of passing silently
+    path_note = None
+    if all(r.status == HOLDS for r in verdicts) and not os.environ.get("TMVERIF_NO_GATE"):
+        try:
+            from . import canon
+            ref = Repo(canon.REFERENCE_DIR)
+            funcs_seen = {r.func for r in verdicts}
+            for short in sorted(repo.consulted):
+                if short not in ref.mods:
+                    continue
+                for name, f in repo.mods[short].funcs.items():
+                    q = "%s.%s" % (short, name)
+                    if q not in funcs_seen or name not in ref.mods[short].funcs:
+                        continue
+                    cn = canon.value_returns(f.node)
+                    rn = canon.value_returns(ref.mods[short].funcs[name].node)
+                    if cn > rn:
+                        rr = [n for n in ast.walk(f.node) if isinstance(n, ast.Return) and n.value is not None]
+                        extra = Result("PATHS", q, "every value-returning path of the function is one the rule tables were confirmed on", UNRECOGNISED,
+                                       "%s has %d value-returning `return` statements, the confirmed version %d: an added return path (fast path / early "
+                                       "exit) is not covered by the rules of this property" % (q, cn, rn), "%s:%d" % (os.path.relpath(f.mod.path, repo.root), rr[0].lineno))
+                        verdicts.append(extra)
+                        results.append(extra)
+                        path_note = extra.detail
+        except Exception as e:
+            path_note = "path gate unavailable: %s" % e
     equiv_note = None
     if any(r.status != HOLDS for r in verdicts) and not os.environ.get("TMVERIF_NO_EQUIV"):
         # a shape the rule tables do not know (or a rule that fires): before that becomes a verdict, try to PROVE that the package computes
@@ -161,6 +188,15 @@ def run_property(pid, tier="quick", replay=None, repo_root=None, write_evidence=
                                 r.status, r.detail[:300])
                             r.status = HOLDS
                             r.witness = None
+                            n_up += 1
+                    # rule instances that did not come up at all on the rewritten shape (a rule returned early) hold on the reference too
+                    have = {r.key for r in verdicts}
+                    for r in ref_results:
+                        if r.key not in have:
+                            r.detail = "[instance of the confirmed reference, to which the package was proved equivalent] %s" % r.detail[:300]
+                            verdicts.append(r)
+                            results.append(r)
+                            have.add(r.key)
                             n_up += 1
                     equiv_note = "package proved equivalent to the reference (%d functions identical, summary-equivalent: %s); %d rule result(s) taken from the reference" % (
                         stats["identical"], ", ".join(stats["equivalent"]), n_up)
@@ -197,33 +233,6 @@ def run_property(pid, tier="quick", replay=None, repo_root=None, write_evidence=
                 gate_note = "%d spelling-based finding(s) downgraded to ANALYSIS-ERROR: rewritten functions %s" % (n_dn, ", ".join(rewritten[:6]))
         except AnalysisError as e:
             gate_note = "rewrite gate unavailable: %s" % e
-    # a value-returning `return` that the confirmed version of an analysed function does not have is a path the rule tables were never
-    # confirmed on (typically an added fast path): if everything else holds, say so instead of passing silently
-    path_note = None
-    if all(r.status == HOLDS for r in verdicts) and not os.environ.get("TMVERIF_NO_GATE"):
-        try:
-            from . import canon
-            ref = Repo(canon.REFERENCE_DIR)
-            funcs_seen = {r.func for r in verdicts}
-            for short in sorted(repo.consulted):
-                if short not in ref.mods:
-                    continue
-                for name, f in repo.mods[short].funcs.items():
-                    q = "%s.%s" % (short, name)
-                    if q not in funcs_seen or name not in ref.mods[short].funcs:
-                        continue
-                    cn = canon.value_returns(f.node)
-                    rn = canon.value_returns(ref.mods[short].funcs[name].node)
-                    if cn > rn:
-                        rr = [n for n in ast.walk(f.node) if isinstance(n, ast.Return) and n.value is not None]
-                        extra = Result("PATHS", q, "every value-returning path of the function is one the rule tables were confirmed on", UNRECOGNISED,
-                                       "%s has %d value-returning `return` statements, the confirmed version %d: an added return path (fast path / early "
-                                       "exit) is not covered by the rules of this property" % (q, cn, rn), "%s:%d" % (os.path.relpath(f.mod.path, repo.root), rr[0].lineno))
-                        verdicts.append(extra)
-                        results.append(extra)
-                        path_note = extra.detail
-        except Exception as e:
-            path_note = "path gate unavailable: %s" % e
     known, _fixed = load_known()
     known = known.get(pid, {})
     viol = [r for r in verdicts if r.status == VIOLATION]
